@@ -246,7 +246,14 @@ pub fn check(c: &Case, obs: &mut Obs) -> Result<(), String> {
         m,
         obs,
         ("build_array", "build_array", "build_array-error"),
-        &|buf| jsonb::build_array(pe.iter().map(|x| x.as_slice()), buf),
+        &|buf| {
+            if c.update {
+                // an iterator whose size_hint is not exact
+                jsonb::build_array(pe.iter().map(|x| x.as_slice()).filter(|x| !x.is_empty()), buf)
+            } else {
+                jsonb::build_array(pe.iter().map(|x| x.as_slice()), buf)
+            }
+        },
     )?;
     let oe: Vec<(String, Vec<u8>)> = c.obj_parts.iter().map(|(k, v)| (k.clone(), v.enc())).collect();
     let sorted = c.obj_parts.windows(2).all(|w| w[0].0.as_bytes() < w[1].0.as_bytes());
@@ -257,7 +264,13 @@ pub fn check(c: &Case, obs: &mut Obs) -> Result<(), String> {
         m,
         obs,
         ("build_object", "build_object", "build_object-error"),
-        &|buf| jsonb::build_object(oe.iter().map(|(k, v)| (k.as_str(), v.as_slice())), buf),
+        &|buf| {
+            if c.update {
+                jsonb::build_object(oe.iter().map(|(k, v)| (k.as_str(), v.as_slice())).filter(|(_, v)| !v.is_empty()), buf)
+            } else {
+                jsonb::build_object(oe.iter().map(|(k, v)| (k.as_str(), v.as_slice())), buf)
+            }
+        },
     )?;
 
     let kids = match m {
